@@ -75,7 +75,35 @@ def c06(tier, seed):
     return session.run_property("C06", tier, seed, plan)
 
 
-PLANS = {"C01": c01, "C02": c02, "C03": c03, "C04": c04, "C05": c05, "C06": c06}
+C20_PREDS = ["C20_AcceptMonotone", "C20_StaleIgnored", "C20_SwitchOnValid", "C20_SwitchWhenValidated", "C20_ControllingKeepsNewest",
+             "C20_QuiescentAgreement", "C20_ValueOnWire", "C20_OnlyControllingEnabled"]
+
+
+def c20(tier, seed):
+    w = n(tier, 250, 4000)
+    runs = [dict(cfg="p21", traces=w, drain=True, notime=True, zerowait=True, preds=C20_PREDS,
+                 scheds=["fc20a_deferred_ignores_value", "fc20b_responses_reversed", "fc20b_stale_request_answered"]),
+            dict(cfg="p21big", traces=n(tier, 100, 1000), drain=True, notime=True, zerowait=True, preds=C20_PREDS),
+            dict(cfg="p21", traces=n(tier, 100, 1000), preds=C20_PREDS),
+            dict(cfg="p21n", traces=n(tier, 60, 500), preds=["C20_OnlyControllingEnabled"])]
+    plan = {"runs": runs, "mc": [("p21", ["SelListed", "NoDupPairs"], None)], "assumptions": SESSION_ASSUME + [
+        "quiescent agreement is judged on loss-free traces after the fair suffix, with a frozen clock"]}
+    return session.run_property("C20", tier, seed, plan)
+
+
+C07_PREDS = ["C07_WriteRoute", "C07_NoSTUNWrite", "C07_ReadOnlyKnown", "C07_DataInert", "C07_ConnCounters", "C07_PairCounters"]
+
+
+def c07(tier, seed):
+    w = n(tier, 200, 3000)
+    runs = [dict(cfg=c, traces=w, drain=True, notime=True, preds=C07_PREDS) for c in ("pdata", "pdata21", "pdatanat")]
+    runs.append(dict(cfg="pdata", traces=n(tier, 100, 1500), preds=C07_PREDS))
+    plan = {"runs": runs, "mc": [("pdata", ["DataOnlyOnValid", "SelListed"], None)], "assumptions": SESSION_ASSUME + [
+        "payload sizes 5..8192 bytes; the application reader runs concurrently and is drained at every step"]}
+    return session.run_property("C07", tier, seed, plan)
+
+
+PLANS = {"C07": c07, "C20": c20, "C01": c01, "C02": c02, "C03": c03, "C04": c04, "C05": c05, "C06": c06}
 
 # other families live in lib/plan_<family>.py, each exporting PLANS = {"Cnn": fn(tier, seed) -> exit code}
 import glob as _glob
